@@ -250,11 +250,23 @@ def search_model(ctx, label, spec, m, hits):
     if r:
         report(f'search:{r["key"]}:{fam}', r['what'], r, 'ppf_of_cdf', [xs, sd])
     if fam == 'kde':       # both solvers
+        us3 = np.array([0.1, 0.5, 0.9])
         try:
-            a = np.asarray(k.percent_point(np.array([0.1, 0.5, 0.9]), method='bisect'), dtype=float)
-            b = np.asarray(k.percent_point(np.array([0.1, 0.5, 0.9])), dtype=float)
-            if not np.all(np.abs(a - b) <= 1e-6 * (1 + sd)):
-                report('search:kde-solvers-disagree:kde', f'percent_point bisect {a.tolist()} vs chandrupatla {b.tolist()}', {}, 'ppf_laws', [[0.1, 0.5, 0.9]])
+            a = np.asarray(k.percent_point(us3, method='bisect'), dtype=float)
+            b = np.asarray(k.percent_point(us3), dtype=float)
+            ca = np.asarray(k.cumulative_distribution(a), dtype=float)
+            if not np.all(np.abs(ca - us3) <= 1e-6):
+                key = 'search:kde-bisect-wrong-quantile:kde'
+                why = ''
+                if np.all(np.abs(a - b) <= 1e-8):      # within bisect's absolute x-tolerance tol=1e-8 of the Chandrupatla root: the tolerance ignores the data scale
+                    key = 'F33:kde-ppf-bisect-absolute-tolerance'
+                    why = (f'; the roots are within bisect\'s absolute tolerance 1e-8 of the Chandrupatla roots {b.tolist()}, but the data spread is only sigma = {sd!r}')
+                hits.append(key)
+                ctx.violation(key, f'{label} ({spec["cls"]} {spec["kwargs"]}): percent_point({us3.tolist()}, method="bisect") = {a.tolist()} whose cdf is {ca.tolist()}' + why,
+                              {'model': label, 'spec': spec, 'bisect': a.tolist(), 'chandrupatla': b.tolist(), 'cdf_of_bisect': ca.tolist(),
+                               'repro': 'import numpy as np, warnings\nwarnings.filterwarnings("ignore")\nfrom vf import univ\n'
+                                        f'k = univ.inner(univ.build({spec!r}))\nu = np.array([0.1, 0.5, 0.9])\nx = k.percent_point(u, method="bisect")\n'
+                                        'c = k.cumulative_distribution(x)\nprint(x, c)\nassert np.all(np.abs(c - u) <= 1e-6)\n'}, found=True)
         except Exception as ex:
             report(f'search:ppf-bisect-raises-{type(ex).__name__}:kde', f'percent_point(method="bisect") raises {type(ex).__name__}: {ex}', {}, 'ppf_laws', [[0.1, 0.5, 0.9]])
 
